@@ -2,6 +2,7 @@ package main
 
 import (
 	"bufio"
+	"bytes"
 	"crypto"
 	"encoding/json"
 	"fmt"
@@ -9,6 +10,7 @@ import (
 	"math/big"
 	"os"
 	"runtime"
+	"sort"
 	"sync"
 
 	"github.com/oasisprotocol/ed25519"
@@ -123,7 +125,14 @@ func (in *vInst) opts(zip bool) *ed25519.Options {
 	return o
 }
 
+// ctxPool: contexts shared by the ctx and the ph variant (and by successive cases), so that anything the library
+// remembers per context between calls is exercised; the other half of the cases draws fresh random contexts.
+var ctxPool = [][]byte{[]byte("v"), []byte("verif-context-16"), bytes.Repeat([]byte{0xc5}, 255)}
+
 func ctxFor(variant string, r *hx.Rng) []byte {
+	if (variant == "ctx" || variant == "ph") && r.Intn(2) == 0 {
+		return append([]byte(nil), ctxPool[r.Intn(len(ctxPool))]...)
+	}
 	switch variant {
 	case "ctx":
 		return r.Bytes([]int{1, 2, 16, 254, 255, 1 + r.Intn(255)}[r.Intn(6)])
@@ -274,6 +283,12 @@ func pick(seed int64, i int, num, den uint32) bool {
 	return h.Sum32()%den < num
 }
 
+func orderKey(seed int64, i int) uint32 {
+	h := fnv.New32a()
+	fmt.Fprintf(h, "order/%d/%d", seed, i)
+	return h.Sum32()
+}
+
 func runVerify() {
 	cases := readCases(*fCases)
 	r := hx.NewRng(*fSeed)
@@ -302,6 +317,7 @@ func runVerify() {
 			}
 		}()
 	}
+	var selected []job
 	for i, c := range cases {
 		boundary := c.S.R == "bnd"
 		smallA, smallR := c.A.K == "so", c.R.K == "so"
@@ -327,7 +343,16 @@ func runVerify() {
 		if !thorough && !core && !pick(*fSeed, i, num, den) {
 			continue
 		}
-		jobs <- job{i, c}
+		selected = append(selected, job{i, c})
+	}
+	// the case matrix is grouped by variant; feed it in a seeded pseudo-random order so that calls of different variants,
+	// contexts and keys follow each other (anything remembered between calls must not matter)
+	sort.Slice(selected, func(a, b int) bool {
+		ha, hb := orderKey(*fSeed, selected[a].i), orderKey(*fSeed, selected[b].i)
+		return ha < hb || (ha == hb && selected[a].i < selected[b].i)
+	})
+	for _, j := range selected {
+		jobs <- j
 	}
 	close(jobs)
 	wg.Wait()
